@@ -275,9 +275,10 @@ impl ByteCompiler<'_> {
         self.bytecode.emit_jump(start_address);
 
         self.patch_jump(exit);
-        self.pop_loop_control_info();
+        let leaving = self.pop_iterator_loop_control_info();
 
         self.iterator_close(false);
+        self.emit_loop_exit_trampolines(leaving);
         self.patch_jump(early_exit);
     }
 
@@ -445,9 +446,10 @@ impl ByteCompiler<'_> {
         self.bytecode.emit_jump(start_address);
 
         self.patch_jump(exit);
-        self.pop_loop_control_info();
+        let leaving = self.pop_iterator_loop_control_info();
 
         self.iterator_close(for_of_loop.r#await());
+        self.emit_loop_exit_trampolines(leaving);
     }
 
     pub(crate) fn compile_while_loop(
